@@ -180,3 +180,49 @@ func HarnessExpHeadersBatch(m int, n int) {
 	}
 	vh.Reach("progress")
 }
+
+func (h *expHeaders) GetHeightByHash(x *chainhash.Hash) (int32, error) {
+	if x.IsEqual(&h.tipHash) || x.IsEqual(&h.older) {
+		return h.tipHeight, nil
+	}
+	return 0, errors.New("block is not in the main chain")
+}
+
+// HarnessExpInv (C06, experimental engine): once the checkpoints are synced, an inv that announces
+// a block we do not know is followed by exactly one getheaders carrying the service's locator and
+// that block as stop; an inv for a known block, or one without a block, requests nothing; before
+// the checkpoints are synced invs are ignored.
+func HarnessExpInv() {
+	hs := &expHeaders{tipHeight: vh.NondetI32("tipHeight"), tipHash: vh.NondetHash("tipHash"), older: vh.NondetHash("olderHash")}
+	vh.Assume(hs.tipHeight >= 0)
+	log := vh.Logger()
+	p := &Peer{conn: &expConn{}, addr: &net.TCPAddr{}, cfg: &config.P2PConfig{}, chainParams: &chaincfg.Params{}, headersService: hs, chainService: &expChains{},
+		log: log, protocolVersion: wire.ProtocolVersion, msgChan: make(chan wire.Message, 16), quit: make(chan struct{})}
+	p.syncedCheckpoints = vh.NondetBool("syncedCheckpoints")
+	blk := vh.NondetHash("announced")
+	isBlock := vh.NondetBool("isBlock")
+	inv := wire.NewMsgInv()
+	typ := wire.InvTypeTx
+	if isBlock {
+		typ = wire.InvTypeBlock
+	}
+	_ = inv.AddInvVect(wire.NewInvVect(typ, &blk))
+	p.handleInvMsg(inv)
+	var sent []wire.Message
+	for len(p.msgChan) > 0 {
+		sent = append(sent, <-p.msgChan)
+	}
+	known := vh.Or(vh.HashEq(blk, hs.tipHash), vh.HashEq(blk, hs.older))
+	if vh.Concretely(vh.And(p.syncedCheckpoints, isBlock, !known)) {
+		vh.Assert("C06x/announced-unknown-block-is-requested", len(sent) == 1)
+		if len(sent) == 1 {
+			gh, ok := sent[0].(*wire.MsgGetHeaders)
+			vh.Assert("C06x/announced-unknown-block-is-requested", ok && len(gh.BlockLocatorHashes) == 2 && vh.HashEq(*gh.BlockLocatorHashes[0], hs.tipHash) &&
+				vh.HashEq(*gh.BlockLocatorHashes[1], hs.older) && vh.HashEq(gh.HashStop, blk))
+		}
+		vh.Reach("requested")
+		return
+	}
+	vh.Assert("C06x/nothing-requested-otherwise", len(sent) == 0)
+	vh.Reach("ignored")
+}
